@@ -12,10 +12,13 @@
 EXTENDS MC_Twin, Json, IOUtils, TLCExt
 
 VARIABLE ops
-gvars == <<S, wl, out, allok, prevok, tracked, nodisp, S0, chk, depth, ops>>
+gvars == <<S, wl, out, allok, prevok, tracked, nodisp, S0, chk, depth, cfg, ops>>
 
 GInit == Init /\ ops = <<>> /\ TLCSet(7, <<>>)
-GNext == depth < MaxDepth /\ \E o \in Ops : Do(o) /\ ops' = Append(ops, [op |-> o, out |-> out', vol |-> S'.vol])
+GNext == /\ depth < MaxDepth
+         /\ \/ \E o \in Ops : Do(o) /\ ops' = Append(ops, [op |-> o, out |-> out', vol |-> S'.vol])
+            \/ \E c \in Cfgs : SetCfg(c) /\ ops' = Append(ops, [op |-> [op |-> "setconfig", maxv |-> c.wlmax, autosplit |-> c.autosplit],
+                                                                 out |-> "ok", vol |-> S.vol])
 
 \* collect every maximal behaviour once (evaluated as a state constraint: TRUE for all states)
 Collect == IF depth = MaxDepth THEN TLCSet(7, Append(TLCGet(7), [init |-> S0.vol, ops |-> ops])) ELSE TRUE
